@@ -124,3 +124,75 @@ func VerifH_payload() {
 	verifAssert(verifHashArgsOK(payload, hash), "C18: generated payload does not carry its SHA-256 hash")
 	verifObserve("len", uint64(len(payload)))
 }
+
+// The same contract on concrete header texts: every entry is a choice among representative
+// strings, so that HasPrefix / TrimPrefix / ParseInt are evaluated with their real semantics and
+// a counterexample replays natively as is.  The expected meaning of each text is tabulated here.
+const vNEntries = 15
+
+type vEntry struct {
+	s          string
+	is, wf     bool // is a gfet4t7 entry; its duration text is a well-formed integer
+	ms         int64
+}
+
+func vEntryChoice(tag string) vEntry {
+	i := verifInt(tag)
+	verifAssume(i >= 0 && i < vNEntries)
+	texts := []string{"gfet4t7; dur=45", "gfet4t7; dur=123", "gfet4t7; dur=7", "gfet4t7; dur=0", "gfet4t7; dur=", "gfet4t7; dur=x1", "gfet4t7; dur= 12",
+		"gfet4t7; dur=dur=5", "gfet4t7; dur=-3", "gfet4t7; dur=47", "other; dur=9", "", "gfet4t7", "xgfet4t7; dur=8", "gfet4t7; dur=99999999999999999999"}
+	is := []bool{true, true, true, true, true, true, true, true, true, true, false, false, false, false, true}
+	wf := []bool{true, true, true, true, false, false, false, false, true, true, false, false, false, false, false}
+	ms := []int64{45, 123, 7, 0, 0, 0, 0, 0, -3, 47, 0, 0, 0, 0, 0}
+	return vEntry{s: texts[i], is: is[i], wf: wf[i], ms: ms[i]}
+}
+
+func VerifH_t4t7c() {
+	var hs, ts []vEntry
+	mk := func(tag string) (metadata.MD, []vEntry) {
+		md := metadata.MD{}
+		n := verifInt(tag + "_n")
+		verifAssume(n >= 0 && n <= 2)
+		es := []vEntry{vEntryChoice(tag + "_v0"), vEntryChoice(tag + "_v1")}[:n]
+		vals := []string{}
+		for i := 0; i < 2; i++ {
+			if i < n {
+				vals = append(vals, es[i].s)
+			}
+		}
+		switch verifInt(tag + "_kind") {
+		case 0:
+			return md, nil
+		case 1:
+			md[serverTimingKey] = vals
+			return md, es
+		}
+		md["other-key"] = vals
+		return md, nil
+	}
+	headers, hs := mk("h")
+	trailers, ts := mk("t")
+	got, err := parseT4T7Latency(headers, trailers)
+	verifReach("after")
+	list := hs
+	if len(hs) == 0 {
+		list = ts
+	}
+	var want time.Duration
+	ok, decided := false, false
+	for i := 0; i < 2; i++ {
+		if i < len(list) && !decided && list[i].is {
+			decided = true
+			if list[i].wf {
+				ok, want = true, time.Duration(list[i].ms)*time.Millisecond
+			}
+		}
+	}
+	verifAssert((err == nil) == ok, "C18: GFE latency parsing succeeds/fails differently from 'first gfet4t7 entry of the header (else trailer) list'")
+	if ok {
+		verifReach("parsed")
+		verifAssert(err == nil && got == want, "C18: GFE latency is not the duration of the first gfet4t7 entry")
+	}
+	verifObserve("err", verifB2U(err != nil))
+	verifObserve("ms", uint64(got/time.Millisecond))
+}
